@@ -15,36 +15,77 @@ import (
 	"github.com/foxcpp/go-mockdns"
 	"github.com/foxcpp/maddy/framework/address"
 	"github.com/foxcpp/maddy/framework/buffer"
+	"github.com/foxcpp/maddy/framework/log"
 	"github.com/foxcpp/maddy/framework/module"
+	"github.com/foxcpp/maddy/internal/verifshim/vc09"
 	"github.com/foxcpp/maddy/internal/verifshim/vh"
 	"github.com/foxcpp/maddy/internal/verifshim/vsmtp"
 	"golang.org/x/net/idna"
 )
 
-// recipient forms: a = ASCII, i = IDN domain (convertible), l = non-ASCII local part (not
-// convertible), u = upper-case ASCII spelling
-func c09Addr(id, dom int, form byte) string {
+// recipient forms (the number in the local part is the MAILBOX number; several recipients of one
+// transaction may be different spellings of one mailbox):
+//   a = ASCII                      u1@d0.example
+//   u = upper-case ASCII           U1@D0.EXAMPLE           (same mailbox as a)
+//   U = upper-case local part only U1@d0.example           (same mailbox, same connection as a)
+//   i = IDN domain, U-labels       u1@пример0.example      (convertible)
+//   I = same, upper-case local     U1@пример0.example
+//   x = the same domain, A-labels  u1@xn--0-itbmn9a5a.example  (same mailbox as i)
+//   X = upper-case A-label form    U1@XN--0-ITBMN9A5A.EXAMPLE
+//   l = non-ASCII local part       ю1@d0.example           (not convertible)
+//   c / d = composed / decomposed  é1@d0.example           (NFC / NFD spelling of one mailbox)
+//   C = upper-case composed        É1@d0.example
+func c09IDN(dom int) string { return fmt.Sprintf("пример%d.example", dom) }
+
+func c09Addr(mbox, dom int, form byte) string {
 	switch form {
 	case 'i':
-		return fmt.Sprintf("u%d@пример%d.example", id, dom)
+		return fmt.Sprintf("u%d@%s", mbox, c09IDN(dom))
+	case 'I':
+		return fmt.Sprintf("U%d@%s", mbox, c09IDN(dom))
+	case 'x':
+		a, _ := idna.ToASCII(c09IDN(dom))
+		return fmt.Sprintf("u%d@%s", mbox, a)
+	case 'X':
+		a, _ := idna.ToASCII(c09IDN(dom))
+		return fmt.Sprintf("U%d@%s", mbox, strings.ToUpper(a))
 	case 'l':
-		return fmt.Sprintf("ю%d@d%d.example", id, dom)
+		return fmt.Sprintf("ю%d@d%d.example", mbox, dom)
+	case 'c':
+		return fmt.Sprintf("\u00e9%d@d%d.example", mbox, dom)
+	case 'd':
+		return fmt.Sprintf("e\u0301%d@d%d.example", mbox, dom)
+	case 'C':
+		return fmt.Sprintf("\u00c9%d@d%d.example", mbox, dom)
 	case 'u':
-		return fmt.Sprintf("U%d@D%d.EXAMPLE", id, dom)
+		return fmt.Sprintf("U%d@D%d.EXAMPLE", mbox, dom)
+	case 'U':
+		return fmt.Sprintf("U%d@d%d.example", mbox, dom)
 	default:
-		return fmt.Sprintf("u%d@d%d.example", id, dom)
+		return fmt.Sprintf("u%d@d%d.example", mbox, dom)
 	}
 }
 
 type c09Rcpt struct {
 	id, dom int
 	form    byte
-	accept  bool
+	act     byte // vc09 action: 1 accept, 0 refuse 550, t refuse 451, 4/c/r/s connection fault under this RCPT
+	mbox    int
 }
 
 type c09Tx struct {
-	rcpts    []c09Rcpt
-	dataFail bool
+	rcpts []c09Rcpt
+	df    string // "0" no DATA failure, "1" everywhere, "d<digits>" for the listed domain numbers
+}
+
+func (tx c09Tx) dataFails(dom int) bool {
+	switch {
+	case tx.df == "1":
+		return true
+	case strings.HasPrefix(tx.df, "d"):
+		return strings.Contains(tx.df[1:], strconv.Itoa(dom))
+	}
+	return false
 }
 
 type c09Collector struct {
@@ -52,21 +93,55 @@ type c09Collector struct {
 	st []string
 }
 
-// op: C09 remote <utf8> <tx>;<tx>   tx = <id>.<dom>.<form>.<accept>,...:<dataFail>
-func c09Parse(s string) []c09Tx {
+// op: C09 remote <utf8> <tx>;<tx>   tx = <id>.<dom>.<form>.<act>[.<mbox>],...:<df>
+// (mbox defaults to id). The second result says whether the history uses anything the go-smtp
+// based scripted server cannot do (positional answers, connection faults, per-domain DATA failure).
+func c09Parse(s string) ([]c09Tx, bool) {
 	var out []c09Tx
+	raw := false
 	for _, ts := range strings.Split(s, ";") {
 		parts := strings.Split(ts, ":")
-		tx := c09Tx{dataFail: parts[1] == "1"}
+		tx := c09Tx{df: parts[1]}
+		if tx.df != "0" && tx.df != "1" {
+			raw = true
+		}
 		for _, rs := range strings.Split(parts[0], ",") {
 			f := strings.Split(rs, ".")
 			id, _ := strconv.Atoi(f[0])
 			dom, _ := strconv.Atoi(f[1])
-			tx.rcpts = append(tx.rcpts, c09Rcpt{id, dom, f[2][0], f[3] == "1"})
+			r := c09Rcpt{id: id, dom: dom, form: f[2][0], act: f[3][0], mbox: id}
+			if len(f) > 4 {
+				r.mbox, _ = strconv.Atoi(f[4])
+				raw = true
+			}
+			if !strings.ContainsRune("ailu", rune(r.form)) || (r.act != '0' && r.act != '1') {
+				raw = true
+			}
+			tx.rcpts = append(tx.rcpts, r)
 		}
 		out = append(out, tx)
 	}
-	return out
+	return out, raw
+}
+
+// c09Wire maps an address as it arrived at the next hop to "<mailbox>@<domain number><i|a>".
+func c09Wire(a string) string {
+	at := strings.LastIndex(a, "@")
+	if at < 0 {
+		return "?" + vh.HexRunes(a)
+	}
+	local, dom := a[:at], strings.ToLower(a[at+1:])
+	digits := strings.TrimLeftFunc(local, func(r rune) bool { return r < '0' || r > '9' })
+	for d := 0; d < 4; d++ {
+		ia, _ := idna.ToASCII(c09IDN(d))
+		switch dom {
+		case fmt.Sprintf("d%d.example", d):
+			return fmt.Sprintf("%s@%da", digits, d)
+		case c09IDN(d), ia:
+			return fmt.Sprintf("%s@%di", digits, d)
+		}
+	}
+	return "?" + vh.HexRunes(a)
 }
 
 func c09Zones() map[string]mockdns.Zone {
@@ -74,7 +149,8 @@ func c09Zones() map[string]mockdns.Zone {
 		"mx.example.invalid.": {A: []string{"127.0.0.1"}},
 	}
 	for d := 0; d < 4; d++ {
-		for _, name := range []string{fmt.Sprintf("d%d.example", d), fmt.Sprintf("D%d.EXAMPLE", d), fmt.Sprintf("пример%d.example", d)} {
+		ia, _ := idna.ToASCII(c09IDN(d))
+		for _, name := range []string{fmt.Sprintf("d%d.example", d), fmt.Sprintf("D%d.EXAMPLE", d), c09IDN(d), ia, strings.ToUpper(ia)} {
 			mx := []net.MX{{Host: "mx.example.invalid.", Pref: 10}}
 			z[name+"."] = mockdns.Zone{MX: mx}
 			z[strings.ToLower(name)+"."] = mockdns.Zone{MX: mx}
@@ -90,41 +166,122 @@ type statusFunc func(string, error)
 
 func (f statusFunc) SetStatus(rcpt string, err error) { f(rcpt, err) }
 
+// c09Hop is the scripted next hop of one history: either the go-smtp based vsmtp server
+// (answers keyed by the canonical form of the address) or the positional raw server of vc09.
+type c09Hop struct {
+	v   *vsmtp.Server
+	r   *vc09.Server
+	txs int // number of server-side transactions seen before the current harness transaction
+}
+
+func (h *c09Hop) close() {
+	if h.v != nil {
+		h.v.Close()
+	}
+	if h.r != nil {
+		h.r.Close()
+	}
+}
+
+// completed returns the recipients (as received) of the server-side transactions that were
+// opened since mark() and ended with 250 after the data.
+func (h *c09Hop) completed() []string {
+	var out []string
+	if h.v != nil {
+		h.v.Script.Set(func(s *vsmtp.Script) {
+			for _, tx := range s.Txs[h.txs:] {
+				if tx.Done {
+					out = append(out, tx.To...)
+				}
+			}
+		})
+	} else {
+		h.r.Set(func(s *vc09.Server) {
+			for _, tx := range s.Txs[h.txs:] {
+				if tx.Done {
+					out = append(out, tx.To...)
+				}
+			}
+		})
+	}
+	return out
+}
+
+func (h *c09Hop) mark() {
+	if h.v != nil {
+		h.v.Script.Set(func(s *vsmtp.Script) { h.txs = len(s.Txs) })
+	} else {
+		h.r.Set(func(s *vc09.Server) { h.txs = len(s.Txs) })
+	}
+}
+
 func c09Remote(t *testing.T, out *vh.Out, op string) {
 	toks := strings.Fields(op)
 	utf8 := toks[2] == "1"
-	txs := c09Parse(toks[3])
+	txs, raw := c09Parse(toks[3])
 
-	smtpPort = vsmtp.FreePort()
-	srv, err := vsmtp.Start("127.0.0.1:"+smtpPort, utf8, false)
-	if err != nil {
+	tgt := testTarget(t, c09Zones(), nil, nil)
+	tgt.connReuseLimit = 10 // the configuration default; testTarget leaves 0 (= never reuse)
+	tgt.Log = log.Logger{Out: log.NopOutput{}}
+	hop := &c09Hop{}
+	var err error
+	for try := 0; try < 3; try++ {
 		smtpPort = vsmtp.FreePort()
-		srv, err = vsmtp.Start("127.0.0.1:"+smtpPort, utf8, false)
+		if raw {
+			hop.r, err = vc09.Start("127.0.0.1:"+smtpPort, utf8, false)
+		} else {
+			hop.v, err = vsmtp.Start("127.0.0.1:"+smtpPort, utf8, false)
+		}
+		if err == nil {
+			break
+		}
 	}
 	if err != nil {
 		t.Fatal(err)
 	}
-	defer srv.Close()
-	tgt := testTarget(t, c09Zones(), nil, nil)
-	tgt.connReuseLimit = 10 // the configuration default; testTarget leaves 0 (= never reuse)
+	defer hop.close()
+	if raw {
+		st := vc09.NewStaller()
+		hop.r.Staller = st
+		tgt.dialer = st.Wrap(tgt.dialer)
+		out.Stat("remote.backend.raw")
+	} else {
+		out.Stat("remote.backend.gosmtp")
+	}
 	defer tgt.Close()
 	allAddr := map[string]bool{}
 
 	var obs []string
 	for _, tx := range txs {
-		srv.Script.Set(func(s *vsmtp.Script) {
-			s.RejectRcpt = map[string]int{}
-			s.DataFail = 0
-			if tx.dataFail {
-				s.DataFail = 451
-			}
-			for _, r := range tx.rcpts {
-				if !r.accept {
-					k, _ := address.ForLookup(c09Addr(r.id, r.dom, r.form))
-					s.RejectRcpt[k] = 550
+		tx := tx
+		if raw {
+			hop.r.Set(func(s *vc09.Server) {
+				s.OnData = func(to []string) int {
+					if len(to) > 0 {
+						w := c09Wire(to[0])
+						if d, err := strconv.Atoi(strings.TrimRight(w[strings.Index(w, "@")+1:], "ia")); err == nil && tx.dataFails(d) {
+							return 451
+						}
+					}
+					return 0
 				}
-			}
-		})
+			})
+		} else {
+			hop.v.Script.Set(func(s *vsmtp.Script) {
+				s.RejectRcpt = map[string]int{}
+				s.DataFail = 0
+				if tx.df == "1" {
+					s.DataFail = 451
+				}
+				for _, r := range tx.rcpts {
+					if r.act != '1' {
+						k, _ := address.ForLookup(c09Addr(r.mbox, r.dom, r.form))
+						s.RejectRcpt[k] = 550
+					}
+				}
+			})
+		}
+		hop.mark()
 		ctx := context.Background()
 		meta := &module.MsgMetadata{ID: "verif", SMTPOpts: smtp.MailOptions{UTF8: true}}
 		d, err := tgt.Start(ctx, meta, "sender@example.com")
@@ -132,11 +289,20 @@ func c09Remote(t *testing.T, out *vh.Out, op string) {
 			t.Fatal(err)
 		}
 		byAddr := map[string]int{}
+		addrOf := map[int]string{}
 		var adds []string
 		accepted := map[int]int{}
+		faultSeen := false
 		for _, r := range tx.rcpts {
-			a := c09Addr(r.id, r.dom, r.form)
+			a := c09Addr(r.mbox, r.dom, r.form)
+			if _, dup := byAddr[a]; dup {
+				out.Note("generator produced the same address string twice in one transaction: " + op)
+			}
 			byAddr[a] = r.id
+			addrOf[r.id] = a
+			if raw {
+				hop.r.NextRcpt(r.act)
+			}
 			err := d.AddRcpt(ctx, a, smtp.RcptOptions{})
 			if err == nil {
 				adds = append(adds, fmt.Sprintf("%d=o", r.id))
@@ -144,6 +310,21 @@ func c09Remote(t *testing.T, out *vh.Out, op string) {
 			} else {
 				adds = append(adds, fmt.Sprintf("%d=f", r.id))
 			}
+			if vc09.IsFault(r.act) {
+				faultSeen = true
+				out.Stat("remote.fault." + string(r.act))
+				if len(accepted) > 0 {
+					out.Stat("remote.fault-after-accepted")
+				}
+			} else if faultSeen {
+				out.Stat("remote.rcpt-after-fault")
+			}
+			if r.mbox != r.id {
+				out.Stat("remote.respelled." + string(r.form))
+			}
+		}
+		if raw {
+			hop.r.NextRcpt(0)
 		}
 		col := &c09Collector{}
 		sc := statusFunc(func(rcpt string, err error) {
@@ -170,7 +351,16 @@ func c09Remote(t *testing.T, out *vh.Out, op string) {
 			d.Abort(ctx)
 		}
 		sort.Strings(col.st)
-		obs = append(obs, "add:"+strings.Join(adds, ",")+" status:"+strings.Join(col.st, ","))
+		// ground truth: what the next hop holds in transactions it answered 250 to
+		completed := hop.completed()
+		var srvObs []string
+		if len(accepted) > 0 {
+			for _, w := range completed {
+				srvObs = append(srvObs, c09Wire(w))
+			}
+		}
+		sort.Strings(srvObs)
+		obs = append(obs, "add:"+strings.Join(adds, ",")+" status:"+strings.Join(col.st, ",")+" srv:"+strings.Join(srvObs, ","))
 
 		// monitor: exactly one result per accepted recipient, under the address given, none else
 		got := map[string]int{}
@@ -192,13 +382,39 @@ func c09Remote(t *testing.T, out *vh.Out, op string) {
 				out.Violation("C09/remote-status-for-unaccepted-recipient", op, fmt.Sprintf("result for %d which was not accepted in this transaction; statuses %v", id, col.st))
 			}
 		}
+		// monitor: a recipient that is not reported as failed was really handed to the next hop in a
+		// transaction that ended with 250 (as given, or in the converted spelling)
+		held := map[string]bool{}
+		for _, w := range completed {
+			held[w] = true
+		}
+		for _, s := range col.st {
+			kv := strings.SplitN(s, "=", 2)
+			id, err := strconv.Atoi(kv[0])
+			if err != nil || kv[1] != "o" {
+				continue
+			}
+			a := addrOf[id]
+			conv, cerr := address.ToASCII(a)
+			if !held[a] && !(cerr == nil && held[conv]) {
+				out.Violation("C09/remote-success-reported-for-recipient-the-next-hop-does-not-hold", op, fmt.Sprintf("recipient %d reported as delivered; completed transactions at the next hop hold %d recipients, not this one; statuses %v", id, len(completed), col.st))
+			}
+		}
 		for a := range byAddr {
 			allAddr[a] = true
 		}
 		out.StatN("remote.rcpts", len(tx.rcpts))
 		out.StatN("remote.accepted", len(accepted))
 	}
-	srv.Script.Set(func(s *vsmtp.Script) { out.StatN("remote.server_sessions", s.Sessions); out.StatN("remote.server_txs", len(s.Txs)) })
+	if raw {
+		hop.r.Set(func(s *vc09.Server) {
+			out.StatN("remote.server_sessions", s.Sessions)
+			out.StatN("remote.server_txs", len(s.Txs))
+			out.StatN("remote.server_anomalies", len(s.Anomalies))
+		})
+	} else {
+		hop.v.Script.Set(func(s *vsmtp.Script) { out.StatN("remote.server_sessions", s.Sessions); out.StatN("remote.server_txs", len(s.Txs)) })
+	}
 	out.Corr(op, strings.Join(obs, " | "))
 	out.Stat(fmt.Sprintf("remote.txs.%d", len(txs)))
 }
@@ -222,6 +438,112 @@ func c09GenTx(r *vh.Rng, nextID *int) string {
 	return strings.Join(rs, ",") + ":" + strconv.Itoa(df)
 }
 
+func c09Perm(r *vh.Rng, n int) []int {
+	p := make([]int, n)
+	for i := range p {
+		p[i] = i
+	}
+	for i := n - 1; i > 0; i-- {
+		j := r.Intn(i + 1)
+		p[i], p[j] = p[j], p[i]
+	}
+	return p
+}
+
+// families of spellings of ONE mailbox (ForLookup-equal addresses)
+var c09Families = []string{"auU", "aU", "iIxX", "cdC", "ix", "xi"}
+
+// c09GenTxRaw generates a transaction for the positional next hop: mailboxes spelled in several
+// ways as different recipients, and/or a connection fault exactly under a RCPT that follows k
+// accepted ones of the same connection and is followed by further recipients of that connection.
+func c09GenTxRaw(r *vh.Rng, nextID *int, respell, fault bool) string {
+	var rs []string
+	acts := func() byte {
+		switch {
+		case r.Chance(12):
+			return '0'
+		case r.Chance(5):
+			return 't'
+		}
+		return '1'
+	}
+	insert := func(tok string) {
+		i := r.Intn(len(rs) + 1)
+		rs = append(rs, "")
+		copy(rs[i+1:], rs[i:])
+		rs[i] = tok
+	}
+	if fault {
+		dom := r.Intn(3)
+		// forms that share one connection key (the domain spelled the same way)
+		forms := r.Pick("a", "a", "alcU", "u", "iI", "x")
+		k := r.Intn(3)
+		after := r.Intn(3)
+		if k == 0 && after == 0 {
+			k = 1
+		}
+		for i := 0; i < k+1+after; i++ {
+			*nextID++
+			act := byte('1')
+			if i == k {
+				act = "4crs"[r.Intn(4)]
+			} else if r.Chance(10) {
+				act = '0'
+			}
+			rs = append(rs, fmt.Sprintf("%d.%d.%c.%c", *nextID, dom, forms[r.Intn(len(forms))], act))
+		}
+	}
+	if respell {
+		groups := 1 + r.Intn(2)
+		for g := 0; g < groups; g++ {
+			fam := c09Families[r.Intn(len(c09Families))]
+			dom := r.Intn(3)
+			perm := c09Perm(r, len(fam))
+			cnt := 2
+			if len(fam) > 2 && r.Chance(40) {
+				cnt = 3
+			}
+			mbox := *nextID + 1
+			for i := 0; i < cnt; i++ {
+				*nextID++
+				tok := fmt.Sprintf("%d.%d.%c.%c", *nextID, dom, fam[perm[i]], acts())
+				if *nextID != mbox {
+					tok += "." + strconv.Itoa(mbox)
+				}
+				if fault || r.Chance(50) {
+					insert(tok)
+				} else {
+					rs = append(rs, tok) // adjacent spellings
+				}
+			}
+		}
+	}
+	extra := r.Intn(3)
+	if len(rs) == 0 {
+		extra = 1 + r.Intn(3)
+	}
+	for i := 0; i < extra; i++ {
+		*nextID++
+		insert(fmt.Sprintf("%d.%d.%c.%c", *nextID, r.Intn(3), "aaailuxcC"[r.Intn(9)], acts()))
+	}
+	df := "0"
+	switch {
+	case r.Chance(12):
+		df = "1"
+	case r.Chance(30):
+		df = "d"
+		for d := 0; d < 3; d++ {
+			if r.Chance(45) {
+				df += strconv.Itoa(d)
+			}
+		}
+		if df == "d" {
+			df = "d" + strconv.Itoa(r.Intn(3))
+		}
+	}
+	return strings.Join(rs, ",") + ":" + df
+}
+
 func TestVerifC09Remote(t *testing.T) {
 	out := vh.Open("c09_remote")
 	defer out.Close()
@@ -239,8 +561,16 @@ func TestVerifC09Remote(t *testing.T) {
 		ntx := 1 + r.Intn(4)
 		id := 0
 		var txs []string
+		// 1/3 of the histories: the original input space against the go-smtp based next hop; the rest:
+		// positional next hop with respelled mailboxes and connection faults (first transaction =
+		// fresh connections, later ones = pooled connections)
+		classic := i%3 == 0
 		for j := 0; j < ntx; j++ {
-			txs = append(txs, c09GenTx(r, &id))
+			if classic {
+				txs = append(txs, c09GenTx(r, &id))
+			} else {
+				txs = append(txs, c09GenTxRaw(r, &id, r.Chance(55), r.Chance(45)))
+			}
 		}
 		utf8 := r.Intn(2)
 		c09Remote(t, out, fmt.Sprintf("C09 remote %d %s", utf8, strings.Join(txs, ";")))
